@@ -394,6 +394,24 @@ func (d *DocSpec) build() *docBuilt {
 		for _, p := range d.Idents {
 			ids = append(ids, jsonapi.Identifier{Type: p[0], ID: p[1]})
 		}
+		// lists of one type (and empty lists) are built the way callers build them: through NewIdentifiers
+		oneType := true
+		for _, p := range d.Idents {
+			if p[0] != d.Idents[0][0] {
+				oneType = false
+			}
+		}
+		if oneType && (len(d.Idents) == 0 || len(d.Idents)%2 == 1) {
+			tn, list := d.Schema.Types[0].Name, []string{}
+			for _, p := range d.Idents {
+				tn = p[0]
+				list = append(list, p[1])
+			}
+			if len(list) == 0 && len(d.Schema.Types)%2 == 0 {
+				list = nil
+			}
+			ids = jsonapi.NewIdentifiers(tn, list)
+		}
 		doc.Data = ids
 	}
 	for _, rs := range d.Included {
